@@ -237,6 +237,84 @@ def scan_loop_exits(ck, prog, config, clause):
     ck.min_instances('exits of the chunk loop', n_exits, 3)
 
 
+def verdict_store(ck, prog, config, clause):
+    """every verdict of validate_chunk() is stored into idx->valid; a whole-data mismatch marks every chunk failed"""
+    vc = prog.need_func('validate_checksums')
+    main_loop = [s for s in walk_stmts(vc.body) if s.k == 'for'][0]
+    class Store(FactRule):
+        name = 'R3.verdict-store'
+
+        def __init__(s, prog, fn):
+            FactRule.__init__(s, prog, fn)
+            s.n = 0
+
+        def after_call(s, c2, call, ts, mask):
+            if callee_name(call) == 'validate_chunk' and c2.fn is s.fn:
+                ts = (ts - frozenset(['stored'])) | frozenset(['pending'])
+            if callee_name(call) == 'validate_file' and c2.fn is s.fn:
+                ts = ts | frozenset(['file-verdict'])
+            return ts
+
+        def on_edge(s, c2, node, label, refined, ts):
+            for expr, origins, before, after in refined:
+                if 'validate_file' in origin_names(origins) and after == M1:
+                    ts = ts | frozenset(['file-mismatch'])
+            return ts
+
+        def on_assign(s, c2, lhs, rhs, op, value, ts):
+            if strip(lhs).k == 'mem' and strip(lhs).op == 'valid' and rhs is not None:
+                # any classification stored for the chunk (R3 restricts what can be stored as 1)
+                ts = (ts - frozenset(['pending'])) | frozenset(['stored'])
+            if strip(lhs).k == 'var' and rhs is not None and pstr(rhs).endswith('index.first') and \
+                    'file-mismatch' in ts:
+                # entering the invalidate-all walk (its shape is checked by R8.loop-shape)
+                ts = ts | frozenset(['all-invalidated'])
+            return ts
+
+        def on_node(s, c2, node, ts):
+            # next iteration / loop exit with a verdict not stored
+            return ts
+
+        def on_return(s, c2, node, mask, ts):
+            if c2.fn is s.fn and mask & ~Z:
+                s.n += 1
+                if 'pending' in ts:
+                    s.violate(c2, 'verdict-dropped', 'a chunk verdict from validate_chunk() is never stored into '
+                              'idx->valid on this path', inst='store', node=node)
+                if 'file-mismatch' in ts and 'all-invalidated' not in ts:
+                    s.violate(c2, 'no-invalidate-all', 'whole-data checksum mismatch with every chunk matching, '
+                              'but the chunks are not marked failed', inst='invalidate-all', node=node)
+            return ts
+    st = Store(prog, vc)
+    run_rule(prog, vc, st)
+    by = {}
+    for v in st.violations:
+        by.setdefault(v.inst, v)
+    ck.ob(clause, 'R3.verdict-store', vc.name, 'store', 'store' not in by,
+          'the verdict of validate_chunk() is stored into idx->valid before the next chunk / exit'
+          if 'store' not in by else by['store'].msg, vc.file, by['store'].node.line if 'store' in by else vc.line,
+          path=by['store'].path if 'store' in by else None, config=config)
+    ck.ob(clause, 'R3.verdict-store', vc.name, 'invalidate-all', 'invalidate-all' not in by,
+          'on a whole-data mismatch every chunk is marked failed' if 'invalidate-all' not in by else
+          by['invalidate-all'].msg, vc.file, by['invalidate-all'].node.line if 'invalidate-all' in by else vc.line,
+          path=by['invalidate-all'].path if 'invalidate-all' in by else None, config=config)
+    # invalidate-all loop covers the whole list
+    inv = [s for s in walk_stmts(vc.body) if s.k == 'for' and s is not main_loop]
+    okinv = False
+    for lp in inv:
+        init_ok = lp.init is not None and any(s.k == 'decl' and s.e is not None and
+                                              pstr(s.e).endswith('index.first') for s in walk_stmts(lp.init))
+        inc_ok = lp.inc is not None and strip(lp.inc).k == 'bin' and pstr(strip(lp.inc).a[1]).endswith('->next')
+        body_ok = any(s.k == 'expr' and strip(s.e).k == 'bin' and last_field(strip(s.e).a[0]) == 'valid' and
+                      const_value(strip(s.e).a[1]) == -1 for s in walk_stmts(lp.body))
+        no_skip = not any(s.k in ('break', 'continue', 'if') for s in walk_stmts(lp.body))
+        okinv = okinv or (init_ok and inc_ok and body_ok and no_skip)
+    ck.ob(clause, 'R8.loop-shape', vc.name, 'invalidate-all-loop', okinv,
+          'the invalidate-all loop walks index.first .. NULL unconditionally' if okinv else
+          'no unconditional loop over the whole chunk list storing valid = -1', vc.file, vc.line, config=config)
+
+
+
 def run(ctx):
     ck = ctx.check
     ck.explanation = (
@@ -291,77 +369,7 @@ def run(ctx):
         g = prog.cfg(vc)
         main_loop = [s for s in walk_stmts(vc.body) if s.k == 'for'][0]
 
-        class Store(FactRule):
-            name = 'R3.verdict-store'
-
-            def __init__(s, prog, fn):
-                FactRule.__init__(s, prog, fn)
-                s.n = 0
-
-            def after_call(s, c2, call, ts, mask):
-                if callee_name(call) == 'validate_chunk' and c2.fn is s.fn:
-                    ts = (ts - frozenset(['stored'])) | frozenset(['pending'])
-                if callee_name(call) == 'validate_file' and c2.fn is s.fn:
-                    ts = ts | frozenset(['file-verdict'])
-                return ts
-
-            def on_edge(s, c2, node, label, refined, ts):
-                for expr, origins, before, after in refined:
-                    if 'validate_file' in origin_names(origins) and after == M1:
-                        ts = ts | frozenset(['file-mismatch'])
-                return ts
-
-            def on_assign(s, c2, lhs, rhs, op, value, ts):
-                if strip(lhs).k == 'mem' and strip(lhs).op == 'valid' and rhs is not None:
-                    # any classification stored for the chunk (R3 restricts what can be stored as 1)
-                    ts = (ts - frozenset(['pending'])) | frozenset(['stored'])
-                if strip(lhs).k == 'var' and rhs is not None and pstr(rhs).endswith('index.first') and \
-                        'file-mismatch' in ts:
-                    # entering the invalidate-all walk (its shape is checked by R8.loop-shape)
-                    ts = ts | frozenset(['all-invalidated'])
-                return ts
-
-            def on_node(s, c2, node, ts):
-                # next iteration / loop exit with a verdict not stored
-                return ts
-
-            def on_return(s, c2, node, mask, ts):
-                if c2.fn is s.fn and mask & ~Z:
-                    s.n += 1
-                    if 'pending' in ts:
-                        s.violate(c2, 'verdict-dropped', 'a chunk verdict from validate_chunk() is never stored into '
-                                  'idx->valid on this path', inst='store', node=node)
-                    if 'file-mismatch' in ts and 'all-invalidated' not in ts:
-                        s.violate(c2, 'no-invalidate-all', 'whole-data checksum mismatch with every chunk matching, '
-                                  'but the chunks are not marked failed', inst='invalidate-all', node=node)
-                return ts
-        st = Store(prog, vc)
-        run_rule(prog, vc, st)
-        by = {}
-        for v in st.violations:
-            by.setdefault(v.inst, v)
-        ck.ob('C09-d', 'R3.verdict-store', vc.name, 'store', 'store' not in by,
-              'the verdict of validate_chunk() is stored into idx->valid before the next chunk / exit'
-              if 'store' not in by else by['store'].msg, vc.file, by['store'].node.line if 'store' in by else vc.line,
-              path=by['store'].path if 'store' in by else None, config=config)
-        ck.ob('C09-d', 'R3.verdict-store', vc.name, 'invalidate-all', 'invalidate-all' not in by,
-              'on a whole-data mismatch every chunk is marked failed' if 'invalidate-all' not in by else
-              by['invalidate-all'].msg, vc.file, by['invalidate-all'].node.line if 'invalidate-all' in by else vc.line,
-              path=by['invalidate-all'].path if 'invalidate-all' in by else None, config=config)
-        # invalidate-all loop covers the whole list
-        inv = [s for s in walk_stmts(vc.body) if s.k == 'for' and s is not main_loop]
-        okinv = False
-        for lp in inv:
-            init_ok = lp.init is not None and any(s.k == 'decl' and s.e is not None and
-                                                  pstr(s.e).endswith('index.first') for s in walk_stmts(lp.init))
-            inc_ok = lp.inc is not None and strip(lp.inc).k == 'bin' and pstr(strip(lp.inc).a[1]).endswith('->next')
-            body_ok = any(s.k == 'expr' and strip(s.e).k == 'bin' and last_field(strip(s.e).a[0]) == 'valid' and
-                          const_value(strip(s.e).a[1]) == -1 for s in walk_stmts(lp.body))
-            no_skip = not any(s.k in ('break', 'continue', 'if') for s in walk_stmts(lp.body))
-            okinv = okinv or (init_ok and inc_ok and body_ok and no_skip)
-        ck.ob('C09-d', 'R8.loop-shape', vc.name, 'invalidate-all-loop', okinv,
-              'the invalidate-all loop walks index.first .. NULL unconditionally' if okinv else
-              'no unconditional loop over the whole chunk list storing valid = -1', vc.file, vc.line, config=config)
+        verdict_store(ck, prog, config, 'C09-d')
 
 
 CLAIM = {
